@@ -384,7 +384,7 @@ func TestC12(t *testing.T) {
 	for _, mode := range []string{"parse", "validate"} {
 		cfg := model.DefaultCfg(mode)
 		cfg.PostBehaviours = []string{"record", "mutate", "record", "error", "issue", "mutate", "wrapped"}
-		cfg.PPost, cfg.PPre, cfg.POpts = 0.3, 0.1, 0
+		cfg.PPost, cfg.PPre, cfg.POpts, cfg.NoMsgOpts = 0.3, 0.1, 0.2, true
 		cfg.PVary, cfg.PAbsent, cfg.PJunk, cfg.PTestSat, cfg.PClean = 0.2, 0.1, 0.04, 0.9, 0.4
 		if h.Thorough() {
 			cfg.MaxDepth, cfg.MaxFields, cfg.MaxElems = 4, 6, 5
